@@ -1,17 +1,21 @@
-//! C11 / C12 - the iterative-deepening root loop, for every expiry instant of the timeout.
+//! C11 / C12 - the iterative-deepening search, for every expiry instant of the timeout.
 //!
 //! Assume-guarantee over the recursion. The real `Engine::search` / `search_with` run (root loop:
-//! previous-best probe, capture stage, remaining moves, commit-on-completed-pass); what lies below
-//! is abstracted:
-//!  * `Board::legals()` returns a SYMBOLIC move list (any entries under the iterator's
-//!    representation invariant; the same list on every call for the root, as the real one would);
-//!    that the real list is exactly the legal moves is C01, that iterating it yields each once C10;
-//!  * every `alphabeta` call (depth 1) is answered by an oracle through the hook
-//!    `Timeout::verif_oracle`: an arbitrary score and an arbitrary number (0..=2) of timeout polls,
-//!    under contract A: "if the timeout has not expired when I return, the score is not a
-//!    sentinel (Min/Max)" - the real `alphabeta` level is checked against A in `c11_contract_a_*`;
+//! previous-best probe, capture stage, remaining moves, discard-on-expiry, commit-on-completed-
+//! pass) and, in the `*_real_level` queries, ONE real level of `alphabeta` below it (terminal
+//! detection, draw rules, leaf evaluation call, child loop with cutoff). What lies below is
+//! abstracted, each abstraction licensed by another property's queries:
+//!  * the move lists are the SET MODEL of the iterator (C10 shows the real `MoveGen` operations
+//!    equal it; C01 that the generated list is exactly the legal moves): `legals` / `next` /
+//!    `is_empty` / `set_mask` / `remove_move` are stubbed by model operations over a small list of
+//!    symbolic moves (the real iterator's raw-pointer compaction alone exceeded 30 GB here);
+//!  * search calls below the real level(s) are answered by an oracle through the hook
+//!    `Timeout::verif_oracle`: an arbitrary score and 0..=2 timeout polls, under contract A ("if
+//!    the timeout has not expired when I return, the score is not a sentinel") and M ("a mate
+//!    score I return has distance >= my depth") - the real level is itself checked against A
+//!    and M, which closes the induction over the recursion depth;
+//!  * make-move returns an arbitrary board (C02), evaluation an arbitrary numeric score;
 //!  * the timeout counts polls and expires at a symbolic poll index k (monotone).
-//! Kani's default checks are on (overflow of `depth += 1`, unwraps, slice bounds).
 use crate::anyv;
 use chess_bitboard::{BitBoard, Color, Pos};
 use chess_engine::{Engine, Score, ThreeFold, Timeout};
@@ -51,78 +55,66 @@ macro_rules! engine_harness {
     };
 }
 
-pub const NE: usize = 1; // entries of the symbolic root move list
-pub const MAXMOVES: u32 = 2; // moves in the list (a promotion destination counts four)
 
+pub const NM: usize = 3; // moves in a symbolic move list
+
+/// set model of one move list: the moves, which are still to come, the destination mask
 #[derive(Clone, Copy)]
-pub struct Entry {
-    pub src: Pos,
-    pub dst: BitBoard,
-    pub promo: bool,
-}
-pub struct World {
+pub struct List {
     pub n: usize,
-    pub e: [Entry; NE],
+    pub mv: [ChessMove; NM],
+    pub taken: [bool; NM],
+    pub mask: BitBoard,
 }
-static mut WORLD: Option<World> = None;
-/// passes started (= calls of legals()), and how often the probe move was searched: in the
-/// current pass, at most in any earlier pass, and in pass 0
+impl List {
+    fn any() -> List {
+        let n: usize = kani::any();
+        kani::assume(n <= NM);
+        let mv = [anyv::mv(), anyv::mv(), anyv::mv()];
+        // a list never holds a move twice
+        kani::assume(mv[0] != mv[1] && mv[0] != mv[2] && mv[1] != mv[2]);
+        List { n, mv, taken: [false; NM], mask: !BitBoard::empty() }
+    }
+    fn contains(&self, m: ChessMove) -> bool {
+        let mut f = false;
+        let mut i = 0;
+        while i < self.n {
+            f |= self.mv[i] == m;
+            i += 1;
+        }
+        f
+    }
+}
+const ROOT: usize = 0;
+const CHILD: usize = 1;
+static mut LISTS: [Option<List>; 2] = [None, None];
+/// bookkeeping: passes started (= root legals() calls), how often the probe move was searched
 static mut PASSES: u32 = 0;
 static mut PROBE: Option<ChessMove> = None;
 static mut PROBE_THIS: u32 = 0;
 static mut PROBE_MAX: u32 = 0;
 static mut PROBE_PASS0: u32 = 0;
+/// tag carried by boards that the make-move stub returns (children of the root)
+const CHILD_TAG: u64 = 0x5eed_c41d_0000_0001;
 
-fn world() -> &'static World {
-    unsafe { WORLD.as_ref().unwrap() }
+fn list(which: usize) -> &'static mut List {
+    unsafe { LISTS[which].as_mut().unwrap() }
 }
-/// membership of a move in the symbolic root list
 pub fn in_list(m: ChessMove) -> bool {
-    let w = world();
-    let mut found = false;
-    let mut i = 0;
-    while i < w.n {
-        found |= w.e[i].src == m.source && w.e[i].dst.contains(m.dest) && w.e[i].promo == m.piece.is_some();
-        i += 1;
-    }
-    found
+    list(ROOT).contains(m)
 }
-fn list_is_empty() -> bool {
-    world().n == 0
+/// the iterator value only carries which model it stands for (its promotion cursor, 0 or 1)
+fn handle(which: usize) -> MoveGen {
+    MoveGen::verif_from_entries(&[], 0, !BitBoard::empty(), which)
 }
-fn any_world(own: BitBoard) -> World {
-    let n: usize = kani::any();
-    kani::assume(n <= NE);
-    let mut e = [Entry { src: Pos::A1, dst: BitBoard::empty(), promo: false }; NE];
-    let mut i = 0;
-    while i < NE {
-        let dst = BitBoard::from_u64(kani::any());
-        // what the generator guarantees (C01): non-empty, never onto an own piece; and a bound
-        // on the number of moves so that the stage loops unwind: <= 2 destinations per entry
-        kani::assume(dst.any() && (dst & own).none() && dst.count() <= 2);
-        e[i] = Entry { src: anyv::pos(), dst, promo: kani::any() };
-        // a move belongs to one entry only
-        let mut j = 0;
-        while j < i {
-            kani::assume(e[j].src != e[i].src);
-            j += 1;
-        }
-        i += 1;
+fn stub_legals(b: &Board) -> MoveGen {
+    if b.verif_parts().zobrist == CHILD_TAG {
+        // a fresh, arbitrary list for the child position
+        unsafe { LISTS[CHILD] = Some(List::any()) };
+        return handle(CHILD);
     }
-    // bound on the number of moves, so that the stage loops unwind
-    let mut total = 0u32;
-    let mut i = 0;
-    while i < n {
-        total += e[i].dst.count() as u32 * if e[i].promo { 4 } else { 1 };
-        i += 1;
-    }
-    kani::assume(total <= MAXMOVES);
-    World { n, e }
-}
-/// stub of `Board::legals`: the root's list
-fn stub_legals(_b: &Board) -> MoveGen {
     unsafe {
-        // a new pass starts: close the bookkeeping of the previous one
+        // a new pass of the root loop: same moves again, nothing taken, full mask
         if PASSES == 1 {
             PROBE_PASS0 = PROBE_THIS;
         }
@@ -132,57 +124,82 @@ fn stub_legals(_b: &Board) -> MoveGen {
         PROBE_THIS = 0;
         PASSES += 1;
     }
-    let w = world();
-    let mut v = [(Pos::A1, BitBoard::empty(), false); NE];
+    let l = list(ROOT);
+    l.taken = [false; NM];
+    l.mask = !BitBoard::empty();
+    handle(ROOT)
+}
+fn stub_next(g: &mut MoveGen) -> Option<ChessMove> {
+    let l = list(g.verif_promotion_cursor());
     let mut i = 0;
-    while i < NE {
-        v[i] = (w.e[i].src, w.e[i].dst, w.e[i].promo);
+    while i < l.n {
+        if !l.taken[i] && l.mask.contains(l.mv[i].dest) {
+            l.taken[i] = true;
+            return Some(l.mv[i]);
+        }
         i += 1;
     }
-    MoveGen::verif_from_entries(&v[..w.n], 0, !BitBoard::empty(), 0)
+    None
 }
-
-/// `ThreeFold::get` (a std HashMap lookup) answered by an arbitrary count: the root loop only
-/// passes it on to the search below. (The real lookup cannot be compiled by Kani 0.68 at all:
-/// hashbrown's SSE2 group code trips an internal compiler assertion, intrinsics.rs:243.)
+fn stub_is_empty(g: &MoveGen) -> bool {
+    let l = list(g.verif_promotion_cursor());
+    let mut any = false;
+    let mut i = 0;
+    while i < l.n {
+        any |= !l.taken[i] && l.mask.contains(l.mv[i].dest);
+        i += 1;
+    }
+    !any
+}
+fn stub_set_mask(g: &mut MoveGen, mask: BitBoard) {
+    list(g.verif_promotion_cursor()).mask = mask;
+}
+fn stub_remove_move(g: &mut MoveGen, m: ChessMove) -> bool {
+    let l = list(g.verif_promotion_cursor());
+    let mut found = false;
+    let mut i = 0;
+    while i < l.n {
+        if l.mv[i] == m && !l.taken[i] {
+            l.taken[i] = true;
+            found = true;
+        }
+        i += 1;
+    }
+    found
+}
+/// make-move below the root: an arbitrary board (its relation to the parent is C02's subject),
+/// tagged so that the list stub can tell it from the root
+unsafe fn stub_move_unchecked(_b: &Board, _mv: ChessMove) -> Board {
+    let mut b = any_root_board();
+    let mut parts = b.verif_parts();
+    parts.zobrist = CHILD_TAG;
+    b = Board::verif_from_raw(*b.raw(), parts);
+    b
+}
+fn stub_eval(_e: &mut Engine, _b: &Board, _d: u16) -> Score {
+    Score::Raw(kani::any())
+}
 fn stub_tf_get(_t: &ThreeFold, _b: &Board) -> u8 {
     kani::any()
 }
-
-/// `MoveGen::set_mask` replaced by its abstract effect: new mask, cursor rewound, entries kept.
-/// The real function also compacts the entries with raw-pointer swaps (byte-wise swaps at
-/// symbolic addresses: that alone made the root-loop query exceed 14 GB); what it means for the
-/// moves the iterator yields is decided by C10's set_mask query (nothing lost, exactly the owned
-/// moves with destination in the mask become visible), and `next` does not depend on the order.
-fn stub_set_mask(g: &mut MoveGen, mask: BitBoard) {
-    let n = g.verif_entries();
-    let mut v = [(Pos::A1, BitBoard::empty(), false); NE];
-    let mut i = 0;
-    while i < n && i < NE {
-        v[i] = g.verif_entry(i);
-        i += 1;
-    }
-    let cursor = g.verif_promotion_cursor();
-    *g = MoveGen::verif_from_entries(&v[..n], 0, mask, cursor);
-}
-
 /// counting timeout with the search oracle attached
 pub struct Clock {
     pub polls: Cell<u32>,
     pub expire_at: u32,
     /// alternative expiry rule: never during the first pass, always from the second pass on
     pub expire_with_second_pass: bool,
-    // bookkeeping of the oracle
+    /// search calls at this depth and deeper are answered by the oracle
+    pub oracle_from_depth: u16,
     pub calls: Cell<u32>,
     pub illegal_call: Cell<bool>,
-    pub mate_for: Option<Color>, // C12: whose mate-in-one answers are tracked
+    pub mate_for: Option<Color>,
     pub saw_mate_answer: Cell<bool>,
-    pub last_mate_move: Cell<Option<ChessMove>>,
 }
 impl Clock {
     fn expired(&self) -> bool {
         if self.expire_with_second_pass {
-            unsafe { PASSES >= 2 }
+            // never later than the start of the second pass; earlier if the poll index says so
+            unsafe { PASSES >= 2 || self.polls.get() > self.expire_at }
         } else {
             self.polls.get() > self.expire_at
         }
@@ -193,19 +210,26 @@ impl Timeout for Clock {
         self.polls.set(self.polls.get() + 1);
         self.expired()
     }
-    fn verif_real_search(&self, _current_depth: u16) {
-        // every search call is answered by the oracle in these queries: cut the real body off
-        // (an explicit cut, so that symbolic execution does not unfold the recursion)
-        kani::assume(false);
+    fn verif_real_search(&self, current_depth: u16) {
+        // below the oracle depth nothing runs for real: an explicit cut, so that symbolic
+        // execution does not unfold the recursion
+        if current_depth >= self.oracle_from_depth {
+            kani::assume(false);
+        }
     }
     fn verif_oracle(&self, mv: ChessMove, current_depth: u16) -> Option<Score> {
-        // the search must only ever ask about moves of the position
-        if !in_list(mv) || current_depth != 1 {
-            self.illegal_call.set(true);
+        if current_depth == 1 {
+            // the root must only ever search moves of the position
+            if !in_list(mv) {
+                self.illegal_call.set(true);
+            }
+            self.calls.set(self.calls.get() + 1);
+            if Some(mv) == unsafe { PROBE } {
+                unsafe { PROBE_THIS += 1 };
+            }
         }
-        self.calls.set(self.calls.get() + 1);
-        if Some(mv) == unsafe { PROBE } {
-            unsafe { PROBE_THIS += 1 };
+        if current_depth < self.oracle_from_depth {
+            return None;
         }
         // the deeper search polls the timeout some number of times
         let extra: u32 = kani::any();
@@ -216,22 +240,26 @@ impl Timeout for Clock {
         if !self.expired() {
             kani::assume(!matches!(s, Score::Min | Score::Max));
         }
+        // contract M: a mate found at depth d has distance >= d
+        match s {
+            Score::WhiteMateIn(n) | Score::BlackMateIn(n) => kani::assume(n >= current_depth),
+            _ => {}
+        }
         if let Some(c) = self.mate_for {
             let mate1 = match c {
                 Color::White => s == Score::WhiteMateIn(1),
                 Color::Black => s == Score::BlackMateIn(1),
             };
-            if mate1 && !self.expired() {
+            if current_depth == 1 && mate1 && !self.expired() {
                 self.saw_mate_answer.set(true);
-                self.last_mate_move.set(Some(mv));
             }
         }
         Some(s)
     }
 }
 
-fn any_root_board() -> Board {
-    // the root loop reads the side to move and the enemy's squares (capture mask) only
+pub fn any_root_board() -> Board {
+    // the search reads side to move, the piece sets (capture masks, capture test) and the clock
     use chess_movegen::raw::RawBoard;
     let colors = [anyv::bb(), anyv::bb()];
     kani::assume((colors[0] & colors[1]).none());
@@ -239,7 +267,7 @@ fn any_root_board() -> Board {
     Board::verif_from_raw(
         raw,
         chess_movegen::verif::VerifParts {
-            zobrist: kani::any(),
+            zobrist: 0,
             turn: anyv::color(),
             castle_rights: 0,
             enpassant: None,
@@ -251,92 +279,92 @@ fn any_root_board() -> Board {
     )
 }
 
-/// all expiry instants k <= KMAX; the loop polls at least once per pass, so it makes at most
-/// KMAX + 2 passes
 const KMAX: u32 = 2;
 
-fn new_clock(k: u32, probe: ChessMove, mate_for: Option<Color>) -> Clock {
+fn new_clock(k: u32, probe: ChessMove, mate_for: Option<Color>, oracle_from_depth: u16) -> Clock {
     unsafe { PROBE = Some(probe) };
     Clock {
         polls: Cell::new(0),
         expire_at: k,
         expire_with_second_pass: false,
+        oracle_from_depth,
         calls: Cell::new(0),
         illegal_call: Cell::new(false),
         mate_for,
         saw_mate_answer: Cell::new(false),
-        last_mate_move: Cell::new(None),
     }
 }
 
-engine_harness! {
+macro_rules! search_harness {
+    ($(#[$a:meta])* pub fn $name:ident() $b:block) => {
+        $crate::engine_harness! {
+            $(#[$a])*
+            #[kani::stub(chess_movegen::Board::legals, stub_legals)]
+            #[kani::stub(<chess_movegen::MoveGen as core::iter::Iterator>::next, stub_next)]
+            #[kani::stub(chess_movegen::MoveGen::is_empty, stub_is_empty)]
+            #[kani::stub(chess_movegen::MoveGen::set_mask, stub_set_mask)]
+            #[kani::stub(chess_movegen::MoveGen::remove_move, stub_remove_move)]
+            #[kani::stub(chess_movegen::Board::move_unchecked, stub_move_unchecked)]
+            #[kani::stub(chess_engine::Engine::eval, stub_eval)]
+            #[kani::stub(chess_engine::ThreeFold::get, stub_tf_get)]
+            pub fn $name() $b
+        }
+    };
+}
+
+fn setup_root() -> Board {
+    let board = any_root_board();
+    unsafe { LISTS[ROOT] = Some(List::any()) };
+    board
+}
+
+search_harness! {
 #[kani::proof]
 #[kani::unwind(5)]
-#[kani::stub(chess_movegen::Board::legals, stub_legals)]
-#[kani::stub(chess_engine::ThreeFold::get, stub_tf_get)]
-#[kani::stub(chess_movegen::MoveGen::set_mask, stub_set_mask)]
 pub fn c11_root_loop_returns_a_legal_move_for_every_expiry_instant() {
-    let board = any_root_board();
-    // (Black to move runs the same generic code instantiated with the mirrored policy; the
-    // policies' duality is C13. Both instantiations in one query exceeded 30 GB.)
-    kani::assume(board.turn() == Color::White);
-    let own = board[board.turn()];
-    unsafe { WORLD = Some(any_world(own)) };
+    let board = setup_root();
     let k: u32 = kani::any();
     kani::assume(k <= KMAX);
-    let clock = new_clock(k, anyv::mv(), None);
+    let clock = new_clock(k, anyv::mv(), None, 1);
     let tf = ThreeFold::default();
     let mut engine = Engine::default();
     let (mv, _score) = engine.search(&board, &tf, &clock);
-    // terminated (we are here), within the pass bound, and only legal moves were ever searched
+    // terminated (we are here); only moves of the position were ever searched
     assert!(!clock.illegal_call.get());
-    match mv {
-        // a returned move is a move of the position
-        Some(m) => assert!(in_list(m)),
-        None => {}
+    if let Some(m) = mv {
+        assert!(in_list(m));
     }
     // no move is searched twice within one pass
     unsafe {
         assert!(PROBE_THIS <= 1 && PROBE_MAX <= 1);
     }
-    if list_is_empty() {
+    if list(ROOT).n == 0 {
         assert!(mv.is_none());
         assert!(clock.calls.get() == 0);
-        // the search ends after the one empty pass, whatever the limit (it used to spin until
-        // the limit and overflow the depth counter - see known_findings.json)
+        // the search ends after the one empty pass, whatever the limit
         assert!(unsafe { PASSES } == 1 && clock.polls.get() == 1);
     }
-    kani::cover!(mv.is_some() && engine.max_depth >= 1);
-    kani::cover!(mv.is_none() && !list_is_empty());
-    kani::cover!(mv.is_none() && list_is_empty());
+    kani::cover!(mv.is_some());
+    kani::cover!(mv.is_none() && list(ROOT).n > 0);
+    kani::cover!(mv.is_none() && list(ROOT).n == 0);
 }
 }
 // harness: c11_root_loop_returns_a_legal_move_for_every_expiry_instant
 
-
-/// The first pass alone: with a limit that cannot expire during it, a move is committed whenever
-/// moves exist, every move of the position is searched exactly once, and when a second pass
-/// starts the previous best move is searched first and still exactly once.
-engine_harness! {
+search_harness! {
 #[kani::proof]
 #[kani::unwind(5)]
-#[kani::stub(chess_movegen::Board::legals, stub_legals)]
-#[kani::stub(chess_engine::ThreeFold::get, stub_tf_get)]
-#[kani::stub(chess_movegen::MoveGen::set_mask, stub_set_mask)]
 pub fn c11_first_pass_commits_and_visits_every_move_once() {
-    let board = any_root_board();
-    let own = board[board.turn()];
-    unsafe { WORLD = Some(any_world(own)) };
+    let board = setup_root();
     let probe = anyv::mv();
     // the limit cannot expire during pass 0 and expires as soon as pass 1 starts
-    let mut clock = new_clock(0, probe, None);
+    let mut clock = new_clock(u32::MAX, probe, None, 1);
     clock.expire_with_second_pass = true;
-    kani::assume(!world().e[0].promo);
     let tf = ThreeFold::default();
     let mut engine = Engine::default();
     let (mv, _score) = engine.search(&board, &tf, &clock);
     assert!(!clock.illegal_call.get());
-    kani::assume(!list_is_empty());
+    kani::assume(list(ROOT).n > 0);
     assert!(mv.is_some());
     assert!(in_list(mv.unwrap()));
     // pass 0 searched every move of the position exactly once (and nothing else)
@@ -351,26 +379,55 @@ pub fn c11_first_pass_commits_and_visits_every_move_once() {
 }
 // harness: c11_first_pass_commits_and_visits_every_move_once
 
+/// One REAL level of alphabeta under the real root loop (oracle from depth 2): the result of the
+/// whole search still obeys C11, and the real level satisfies contracts A and M that the root
+/// queries assume of the oracle - observed at the root: a committed result is never a sentinel,
+/// and a committed mate score never has distance 0.
+search_harness! {
+#[kani::proof]
+#[kani::unwind(8)]
+pub fn c11_real_level_obeys_the_oracle_contracts_t() {
+    let board = setup_root();
+    kani::assume(list(ROOT).n <= 1);
+    // expiry: any poll index up to 3 (inside the child loop of the real level included)
+    let k: u32 = kani::any();
+    kani::assume(k <= 6);
+    let mut clock = new_clock(k, anyv::mv(), None, 2);
+    clock.expire_with_second_pass = true;
+    let tf = ThreeFold::default();
+    let mut engine = Engine::default();
+    let (mv, score) = engine.search(&board, &tf, &clock);
+    assert!(!clock.illegal_call.get());
+    if let Some(m) = mv {
+        assert!(in_list(m));
+        // contract A seen from the root: a committed move comes with a real score
+        assert!(!matches!(score, Score::Min | Score::Max));
+        // contract M: mate distances count plies from the root, starting at 1
+        match score {
+            Score::WhiteMateIn(n) | Score::BlackMateIn(n) => assert!(n >= 1),
+            _ => {}
+        }
+    }
+    if list(ROOT).n == 0 {
+        assert!(mv.is_none());
+    }
+    kani::cover!(mv.is_some());
+    kani::cover!(matches!(score, Score::WhiteMateIn(1)));
+}
+}
+// harness: c11_real_level_obeys_the_oracle_contracts_t
 
 // ------------------------------------------------------------------------------------- C12
 
-/// If some root move's answer is "mate in one for the mover" and the first pass completes, the
-/// search returns such a move with exactly that score; and a mate-in-one score for the mover is
-/// only ever returned together with a move whose answer was mate in one.
-engine_harness! {
+search_harness! {
 #[kani::proof]
 #[kani::unwind(5)]
-#[kani::stub(chess_movegen::Board::legals, stub_legals)]
-#[kani::stub(chess_engine::ThreeFold::get, stub_tf_get)]
-#[kani::stub(chess_movegen::MoveGen::set_mask, stub_set_mask)]
 pub fn c12_root_reports_mate_in_one_truthfully() {
-    let board = any_root_board();
+    let board = setup_root();
     let us = board.turn();
-    let own = board[us];
-    unsafe { WORLD = Some(any_world(own)) };
     let k: u32 = kani::any();
     kani::assume(k <= KMAX);
-    let clock = new_clock(k, anyv::mv(), Some(us));
+    let clock = new_clock(k, anyv::mv(), Some(us), 1);
     let tf = ThreeFold::default();
     let mut engine = Engine::default();
     let (mv, score) = engine.search(&board, &tf, &clock);
@@ -383,9 +440,8 @@ pub fn c12_root_reports_mate_in_one_truthfully() {
         assert!(clock.saw_mate_answer.get());
         assert!(mv.is_some());
     }
-    // completeness: a mate-in-one answer seen in a pass that completed => reported
-    // (the deepening stops at the first mate score, so a completed pass with such an answer
-    // ends the search with it: nothing beats mate in one for the mover)
+    // completeness: a mate-in-one answer in a search that committed a result and was not cut
+    // short => reported (nothing beats mate in one for the mover; deepening stops on it)
     if clock.saw_mate_answer.get() && mv.is_some() && !clock.expired() {
         assert!(score == mate1);
     }
@@ -395,4 +451,46 @@ pub fn c12_root_reports_mate_in_one_truthfully() {
 }
 // harness: c12_root_reports_mate_in_one_truthfully
 
-
+/// the REAL terminal detection one level below the root: with a single root move whose child
+/// position has no legal move, the search reports mate in one for the mover exactly when the
+/// child is in check, and a draw score otherwise; with legal replies it never reports mate in one
+search_harness! {
+#[kani::proof]
+#[kani::unwind(8)]
+pub fn c12_real_terminal_detection_below_the_root_t() {
+    let board = setup_root();
+    kani::assume(list(ROOT).n == 1);
+    let us = board.turn();
+    // the first pass cannot be cut short
+    let mut clock = new_clock(u32::MAX, anyv::mv(), None, 2);
+    clock.expire_with_second_pass = true;
+    let tf = ThreeFold::default();
+    let mut engine = Engine::default();
+    // what the single child position looks like is read back from the stubs' last child
+    let (mv, score) = engine.search(&board, &tf, &clock);
+    assert!(mv == Some(list(ROOT).mv[0]));
+    let mate1 = match us {
+        Color::White => Score::WhiteMateIn(1),
+        Color::Black => Score::BlackMateIn(1),
+    };
+    let wrong_colour_mate1 = match us {
+        Color::White => Score::BlackMateIn(1),
+        Color::Black => Score::WhiteMateIn(1),
+    };
+    // the mover can never be the one who is mated in one ply of his own
+    assert!(score != wrong_colour_mate1);
+    let child = unsafe { LISTS[CHILD] };
+    if let Some(c) = child {
+        if unsafe { PASSES } == 1 || score == mate1 {
+            // (the child list of the LAST real call; with a mate score the search stopped after
+            // pass 0, so it is pass 0's child)
+            if c.n > 0 {
+                assert!(score != mate1);
+            }
+        }
+    }
+    kani::cover!(score == mate1);
+    kani::cover!(score == Score::Raw(0));
+}
+}
+// harness: c12_real_terminal_detection_below_the_root_t
